@@ -35,12 +35,28 @@ SeqRange(sq) == {sq[k] : k \in 1..Len(sq)}
 SameContext(a, b) == /\ a.graphs = b.graphs /\ a.main_nodes = b.main_nodes /\ a.custom = b.custom /\ a.calls = b.calls
                      /\ a.prf = b.prf /\ a.rnd = b.rnd /\ a.inputs = b.inputs /\ a.out_ty = b.out_ty
 
+\* What full inlining of the main graph must produce, from the call structure of the context before it: every graph
+\* contributes its own randomising (PRF) nodes once per copy, a Call makes one copy of the callee (callees precede callers).
+\* Contexts with Iterate nodes are left out: the depth-optimised inliners copy a body a strategy-dependent number of times.
+RECURSIVE TotFrom(_, _, _, _)
+TotFrom(gr, fld, g, acc) ==
+  IF g > Len(gr) THEN acc
+  ELSE LET own == IF fld = "rnd" THEN gr[g].rnd ELSE gr[g].prf
+           RECURSIVE SumCalls(_)
+           SumCalls(k) == IF k > Len(gr[g].calls) THEN 0 ELSE gr[g].calls[k][2] * acc[gr[g].calls[k][1]] + SumCalls(k + 1)
+       IN TotFrom(gr, fld, g + 1, Append(acc, own + SumCalls(1)))
+InlinedCount(b, fld) == TotFrom(b.gr, fld, 1, <<>>)[b.main]
+InliningKeepsRandomness(b, s) ==
+  b.iterates = 0 => /\ s.rnd = InlinedCount(b, "rnd")             \* no two copies share a Random node, none is lost
+                    /\ Len(s.prf) = InlinedCount(b, "prf")
+
 \* the contract of the pass that produces stage `st` from summary `before` (s = the produced summary)
 Contract(st, before, orig, s) ==
   CASE st = "prep.source" -> TRUE
     [] st = "prep.instantiated" -> s.custom = 0                              \* every Custom node became a Call
     [] st = "prep.inlined" -> s.custom = 0 /\ s.calls = 0 /\ s.graphs = 1      \* fully inlined, one graph
                               /\ s.inputs = orig.inputs /\ s.out_ty = orig.out_ty
+                              /\ InliningKeepsRandomness(before, s)
     [] st = "prep.optimized" -> /\ s.custom = 0 /\ s.calls = 0 /\ s.graphs = 1
                                 /\ s.inputs = before.inputs /\ s.out_ty = before.out_ty   \* interface kept (C06)
                                 /\ s.main_nodes <= before.main_nodes
@@ -50,6 +66,7 @@ Contract(st, before, orig, s) ==
                               /\ \A k \in 1..Len(s.inputs) : s.inputs[k].name = before.inputs[k].name
     [] st = "mpc.instantiated" -> s.custom = 0
     [] st = "mpc.inlined" -> s.custom = 0 /\ s.calls = 0 /\ s.graphs = 1
+                             /\ InliningKeepsRandomness(before, s)
     [] st = "mpc.uniquified" -> /\ s.calls = 0 /\ s.graphs = 1
                                 /\ Len(s.prf) = Len(before.prf) /\ s.rnd = before.rnd     \* neither drops nor adds
                                 /\ Distinct(s.prf) /\ \A k \in 1..Len(s.prf) : s.prf[k] >= 1
